@@ -9,7 +9,7 @@ from common import *
 
 
 def run_pipeline(pid, tier, seed, replay, *, driver, model, trace_module, trace_cfg, tiers, prefixes,
-                 assumptions, security=False, extra_vh=None, known_clause_filter=None):
+                 assumptions, security=False, extra_vh=None, known_env=(), extra_sources=()):
     t0 = time.time()
     d = clean_dir(outdir(pid, "work"))
     build_harness(security)
@@ -48,10 +48,41 @@ def run_pipeline(pid, tier, seed, replay, *, driver, model, trace_module, trace_
         rep_stats = json.loads(p.stdout.strip().splitlines()[-1])
         rnd_stats = {"runs": 0, "events": 0}
     files = sorted(glob.glob(os.path.join(d, "rep", "trace_*.ndjson")) + glob.glob(os.path.join(d, "rnd", "trace_*.ndjson")))
-    results = validate_traces(trace_module, trace_cfg, files, pid, jobs=8)
+    # additional sources (another driver / model whose traces also speak about this property)
+    extra_results = []
+    if replay is None:
+        for k, src in enumerate(extra_sources):
+            scfg = src["tiers"][tier]
+            outs = []
+            for c, workers in scfg.get("mc", []):
+                o, info = tlc(src["model"], c, os.path.join(d, "tlc_mc"), workers=workers, timeout=3000)
+                if not info.get("ok"):
+                    log(o[-1500:]); raise ToolError(f"model checking {c} did not complete cleanly: {info}")
+                states += info["states"]; transitions += info["transitions"]
+                mc_detail.append({"cfg": c, **{kk: info.get(kk) for kk in ("states", "transitions", "depth", "wall_s")}})
+                outs.append(o)
+                log(f"[mc] {c}: {info['states']} distinct states, {info['transitions']} transitions")
+            sd = os.path.join(d, f"src{k}")
+            if outs:
+                rp2 = os.path.join(d, f"replays_src{k}.jsonl")
+                n2, _ = extract_replays("\n".join(outs), rp2, limit=scfg.get("replay_limit"), seed=seed)
+                if n2:
+                    p = vh([src["driver"], "replay", "--in", rp2, "--jobs", 8, "--out", os.path.join(sd, "rep")])
+                    st = json.loads(p.stdout.strip().splitlines()[-1]); rep_stats["runs"] += st["runs"]
+            r2 = scfg["random"]
+            p = vh([src["driver"], "random", "--seed", seed, "--runs", r2["runs"], "--events", r2["events"], "--jobs", 8, "--out", os.path.join(sd, "rnd")])
+            st = json.loads(p.stdout.strip().splitlines()[-1]); rnd_stats["runs"] += st["runs"]
+            f2 = sorted(glob.glob(os.path.join(sd, "*", "trace_*.ndjson")))
+            extra_results += validate_traces(src["trace_module"], src["trace_cfg"], f2, pid, jobs=8)
+    kf = known_findings(pid)
+    cenv = {name: "0" for name in known_env}
+    for e in kf:
+        if e.get("env"):
+            cenv[e["env"]] = "1"
+    results = validate_traces(trace_module, trace_cfg, files, pid, jobs=8, constants_env=cenv)
+    results = results + extra_results
     violations, known_lines, other = [], [], {}
     events = 0
-    kf = known_findings(pid)
     for res in results:
         events += res["events"]
         if res["stuck_line"] is not None:
